@@ -416,6 +416,24 @@ pub fn unit(seed: u64, ctx: &mut Ctx, ctl: &mut UnitCtl) {
             case(vec![Mutation::Extend { dev, bytes: b.shp[100..].to_vec() }], ctx, ctl);
         }
     }
+    // pairs around every record boundary: the .shp ends 0..9 bytes after the end of record j-1 while
+    // the index entry of record j is moved 0..4 words further (a small gap that is not there)
+    {
+        let dec_bounds: Vec<usize> = b.shp_fields.iter().filter(|f| f.id.ends_with(".number")).map(|f| f.off).collect();
+        for (j, start) in dec_bounds.iter().enumerate().skip(1) {
+            let Some(off_field) = b.shx_fields.iter().find(|f| f.id == format!("shx.off{}", j)) else { continue };
+            let orig = i32::from_be_bytes(b.shx[off_field.off..off_field.off + 4].try_into().unwrap());
+            for extra in 0..10usize {
+                for w in 0..5i32 {
+                    case(
+                        vec![Mutation::Truncate { dev: 0, len: start + extra }, Mutation::SetField { dev: 1, off: off_field.off, big_endian: true, value: orig + w }],
+                        ctx,
+                        ctl,
+                    );
+                }
+            }
+        }
+    }
     // sampled: pairs of field faults (incl. one on each file), bit flips, garbage
     let all: Vec<(u8, &FieldLoc)> = b.shp_fields.iter().map(|f| (0u8, f)).chain(b.shx_fields.iter().map(|f| (1u8, f))).collect();
     for _ in 0..150 {
@@ -594,6 +612,22 @@ pub fn ladder_unit(unit: u64, ctx: &mut Ctx, ctl: &mut UnitCtl) {
             }
         }
     } else {
+        // records whose declared content length is huge and consistent with the file length,
+        // with nothing behind: a null record (no counts to check at all), and each other type
+        for n in LADDER {
+            for ty in ALL_CODES {
+                let words = clamp_words(4 + 8 * n);
+                let mut shp = hdr(ty, clamp_words(100 + 8 + 4 + 8 * n));
+                shp.extend_from_slice(&1i32.to_be_bytes());
+                shp.extend_from_slice(&words.to_be_bytes());
+                shp.extend_from_slice(&0i32.to_le_bytes()); // the record itself is a null shape
+                shp.extend_from_slice(&[0u8; 24]);
+                let mut shx = hdr(ty, 54);
+                shx.extend_from_slice(&50i32.to_be_bytes());
+                shx.extend_from_slice(&words.to_be_bytes());
+                inputs.push((format!("null record declaring {} content words in a {} file", words, type_name(ty)), shp, shx));
+            }
+        }
         for n in LADDER {
             for present in [1usize, 4096, 4097, 9000] {
                 if present > 1 && !(1_000_000..=100_000_000).contains(&n) {
